@@ -672,6 +672,12 @@ void QXmppOutgoingClient::handlePacketReceived(const QDomElement &nodeRecv)
     // if we receive any kind of data, stop the timeout timer
     d->pingManager.onDataReceived();
 
+    // whitespace keep-alive (RFC 6120, 4.6.1): the socket reports it as a null element, there is
+    // nothing to dispatch
+    if (nodeRecv.isNull()) {
+        return;
+    }
+
     auto index = d->listener.index();
 
     switch (visit(overloaded {
